@@ -1,4 +1,5 @@
 import TextxVerif.Proofs.RecSim
+import TextxVerif.Proofs.RecUnsep
 import TextxVerif.Wire  -- only so that building this module also builds what Drivers/Rec.lean needs
 import TextxVerif.Gen.Grammars
 /-!
@@ -17,6 +18,12 @@ position).
 * `C24_check` — the checker accepts the generated graphs in both directions (kernel evaluation).
 * `C24_agree_partial` — hence `lang` and `unsep tx unproved` accept, and reject, exactly the same
   inputs, for every lexer that satisfies the generated hypotheses `hyps`.
+
+* `C24_bisim_sound_sep`, `C24_check_tx`, `C24_check_trap`, `C24_agree_tx_partial`, `C24_agree_tx_run_partial` —
+  the step from `unsep tx unproved` to `tx` itself, under the hypothesis that no separator of the two RREL
+  repetitions is followed by a non-element: for all positions (`NoTrailingSep`) or, much weaker, on the actual run
+  (`CleanRun`, defined by the instrumented graph `trap tx unproved`).  See the section further down.
+* `C24_never_bad` — the generated graphs never yield the "malformed model" result.
 
 What is *not* proved (hence `_partial`): `unproved` lists the separator repetitions of `textx.tx`
 (`paths+=RRELPath[',']`, `parts+=RRELPathPart['.']`) which `rrel.py` states as `(x sep)* x`.
@@ -98,6 +105,233 @@ theorem C24_agree_partial (L : Lex) (hL : LexOk hyps L) :
   C24_accept_iff langSide txoSide hyps depth rel relInv L C24_check.1 C24_check.2.1 C24_check.2.2.1
     C24_check.2.2.2 hL
 
+
+/-! ### from `unsep tx unproved` to `tx` itself: the follow-set fact as a checked hypothesis
+
+`NoTrailingSep g i L` (`Peg/RecX.lean`): at the repetition node `i = OneOrMore(k, sep=s)`, whenever the
+separator matches right after an element, the element does not fail after it.  Under this hypothesis
+`x+[s]` and `(x s)* x` are in simulation (rules `sepC` / `sepD` of `checkX`, proved sound for all graphs in
+`Proofs/RecUnsep.lean` by loop invariants relating the separator loop and the star loop). -/
+
+/-- **Soundness of the extended checker** (all graphs, relations, lexers, positions, fuel): as
+`C24_bisim_sound`, where the pairs listed in `exC` (`OneOrMore(z, sep=t)` on the left against
+`Sequence[ZeroOrMore(Sequence[z, t]), z]` on the right) and `exD` (the converse) are justified by
+`NoTrailingSep` at the repetition node. -/
+theorem C24_bisim_sound_sep (s₁ s₂ : Side) (H : Hyps) (d : Nat) (R : Rel) (L : Lex) (exC exD : List (Nat × Nat))
+    (hwf₁ : wfSh s₁.g H s₁.sh = true) (hwf₂ : wfSh s₂.g H s₂.sh = true)
+    (hchk : checkX s₁ s₂ H d R exC exD = true) (hL : LexOk H L)
+    (hC : ∀ ab, ab ∈ exC → NoTrailingSep s₁.g ab.1 L) (hD : ∀ ab, ab ∈ exD → NoTrailingSep s₂.g ab.2 L)
+    (x y : Nat) (hxy : inR s₁ s₂ d R x y = true) :
+    ∀ n c p, parse s₁.g L n x c p ≠ .fuel →
+      ∃ m₀, ∀ m, m₀ ≤ m → parse s₂.g L m y c p = parse s₁.g L n x c p :=
+  simX_sound hwf₁ hwf₂ hchk hL hC hD hxy
+
+/-- two checked simulations with exceptional pairs give equal acceptance and equal rejection -/
+theorem C24_accept_iff_sep (s₁ s₂ : Side) (H : Hyps) (d : Nat) (R R' : Rel) (L : Lex)
+    (exC exD exC' exD' : List (Nat × Nat))
+    (hwf₁ : wfSh s₁.g H s₁.sh = true) (hwf₂ : wfSh s₂.g H s₂.sh = true)
+    (h12 : checkX s₁ s₂ H d R exC exD = true) (h21 : checkX s₂ s₁ H d R' exC' exD' = true) (hL : LexOk H L)
+    (hC : ∀ ab, ab ∈ exC → NoTrailingSep s₁.g ab.1 L) (hD : ∀ ab, ab ∈ exD → NoTrailingSep s₂.g ab.2 L)
+    (hC' : ∀ ab, ab ∈ exC' → NoTrailingSep s₂.g ab.1 L) (hD' : ∀ ab, ab ∈ exD' → NoTrailingSep s₁.g ab.2 L) :
+    (accepts s₁.g L ↔ accepts s₂.g L) ∧ (rejects s₁.g L ↔ rejects s₂.g L) := by
+  have t12 := (checkX_base h12).2.1
+  have t21 := (checkX_base h21).2.1
+  constructor
+  · constructor
+    · rintro ⟨n, v, p, h⟩
+      obtain ⟨m, hm⟩ := simX_sound hwf₁ hwf₂ h12 hL hC hD t12 n false 0 (by rw [h]; simp)
+      exact ⟨m, v, p, by rw [hm m (Nat.le_refl _), h]⟩
+    · rintro ⟨n, v, p, h⟩
+      obtain ⟨m, hm⟩ := simX_sound hwf₂ hwf₁ h21 hL hC' hD' t21 n false 0 (by rw [h]; simp)
+      exact ⟨m, v, p, by rw [hm m (Nat.le_refl _), h]⟩
+  · constructor
+    · rintro ⟨n, h⟩
+      obtain ⟨m, hm⟩ := simX_sound hwf₁ hwf₂ h12 hL hC hD t12 n false 0 (by rw [h]; simp)
+      exact ⟨m, by rw [hm m (Nat.le_refl _), h]⟩
+    · rintro ⟨n, h⟩
+      obtain ⟨m, hm⟩ := simX_sound hwf₂ hwf₁ h21 hL hC' hD' t21 n false 0 (by rw [h]; simp)
+      exact ⟨m, by rw [hm m (Nat.le_refl _), h]⟩
+
+/-- `textx.tx` as compiled (the shape table of `unsep tx unproved` is also inductive for `tx`) -/
+def txSide : Side := ⟨tx, txoSh⟩
+/-- the exceptional pairs: every node of `unproved` against itself -/
+def unprovedPairs : List (Nat × Nat) := unproved.map fun i => (i, i)
+
+/-- the identity relation on the nodes of `tx` passes the extended checker between `tx` and
+`unsep tx unproved` in both directions, the nodes of `unproved` being the only exceptional pairs —
+kernel evaluation on the graph dumped from the tree under test -/
+theorem C24_check_tx :
+    wfSh txSide.g hyps txSide.sh = true ∧
+    checkX txSide txoSide hyps 0 (idRel tx.size) unprovedPairs [] = true ∧
+    checkX txoSide txSide hyps 0 (idRel tx.size) [] unprovedPairs = true := by
+  refine ⟨?_, ?_, ?_⟩ <;> decide +kernel
+
+/-- the rewriting `unsep` preserves acceptance and rejection of `tx` for every lexer without trailing
+separators at the rewritten nodes -/
+theorem C24_unsep_agree (L : Lex) (hL : LexOk hyps L) (hT : ∀ i, i ∈ unproved → NoTrailingSep tx i L) :
+    (accepts tx L ↔ accepts (unsep tx unproved) L) ∧ (rejects tx L ↔ rejects (unsep tx unproved) L) := by
+  have hP : ∀ ab, ab ∈ unprovedPairs → NoTrailingSep tx ab.1 L ∧ NoTrailingSep tx ab.2 L := by
+    intro ab hab
+    simp only [unprovedPairs, List.mem_map] at hab
+    obtain ⟨i, hi, rfl⟩ := hab
+    exact ⟨hT i hi, hT i hi⟩
+  exact C24_accept_iff_sep txSide txoSide hyps 0 (idRel tx.size) (idRel tx.size) L unprovedPairs [] [] unprovedPairs
+    C24_check_tx.1 C24_check.2.1 C24_check_tx.2.1 C24_check_tx.2.2 hL
+    (fun ab h => (hP ab h).1) (fun _ h => by simp at h) (fun _ h => by simp at h) (fun ab h => (hP ab h).2)
+
+/-- **C24, full statement about `textx.tx` itself** (not proved in this generality): for every lexer
+satisfying `hyps`, the grammar compiler's parser and the self-hosted grammar accept the same inputs and
+reject the same inputs. -/
+def C24_agree_tx_statement : Prop :=
+  ∀ L : Lex, LexOk hyps L → (accepts lang L ↔ accepts tx L) ∧ (rejects lang L ↔ rejects tx L)
+
+/-- **C24 for `textx.tx` itself (partial).**  For every lexer satisfying `hyps` and without a trailing
+separator at the two RREL repetitions (`NoTrailingSep tx i L` for `i ∈ unproved`: after `path ,` a path
+follows, after `part .` a part follows), the grammar compiler's parser (`lang.py`) and the parser
+compiled from `textx.tx` accept the same inputs and reject the same inputs.
+
+Missing for `C24_agree_tx_statement`: the inputs on which a separator is followed by something that is
+not an element (e.g. `A: b=[B|n|a.];`, see `C24_trailing_example`).  On those the two formulations of
+the repetition give different results *locally* (`C24_sep_forms_differ`, `C24_notrail_needed`); that
+both parsers nevertheless reject is a follow-set argument about the whole grammar and stays with the
+correspondence (the driver evaluates `tx` and `unsep tx unproved` on every generated text). -/
+theorem C24_agree_tx_partial (L : Lex) (hL : LexOk hyps L) (hT : ∀ i, i ∈ unproved → NoTrailingSep tx i L) :
+    (accepts lang L ↔ accepts tx L) ∧ (rejects lang L ↔ rejects tx L) := by
+  have h1 := C24_agree_partial L hL
+  have h2 := C24_unsep_agree L hL hT
+  exact ⟨h1.1.trans h2.1.symm, h1.2.trans h2.2.symm⟩
+
+/-- the bounded scan of the driver refutes the hypothesis when it evaluates to `false` -/
+theorem C24_notrail_scan (g : Graph) (i : Nat) (L : Lex) (F : Nat) (h : noTrailScanB g i L F = false) :
+    ¬ NoTrailingSep g i L := fun hn => by
+  rw [noTrailScan_of hn F] at h
+  exact absurd h (by simp)
+
+/-- the sufficient condition evaluated by the driver and in the examples below implies the hypothesis -/
+theorem C24_notrail_table (g : Graph) (i : Nat) (input : Array Char) (tbl : List (Nat × Nat × Nat)) (F : Nat)
+    (h : noTrailEndsB g i (Lex.ofTable input tbl) F (tableEnds tbl (sepTok g i)) = true) :
+    NoTrailingSep g i (Lex.ofTable input tbl) :=
+  noTrailTable_sound h
+
+/-- `lexOkTable` decides the lexer hypotheses for table lexers -/
+theorem C24_lexok_table (H : Hyps) (input : Array Char) (tbl : List (Nat × Nat × Nat))
+    (h : lexOkTable H input tbl = true) : LexOk H (Lex.ofTable input tbl) :=
+  lexOkTable_sound h
+
+
+/-! ### the hypothesis restricted to the positions the parser really visits
+
+`NoTrailingSep tx i L` quantifies over *all* positions, also those inside comments, strings and regular
+expressions of the grammar text, which the RREL rules never see (`C24_unvisited_example`).  The
+instrumented graph `trap tx unproved` (`Peg/RecX.lean`) guards each of the two separators by a lookahead
+for the element, with a non-terminating alternative: its run terminates iff the actual run of `tx` meets
+no trailing separator.  The guarded repetitions satisfy `NoTrailingSep` for *every* lexer
+(`trap_notrail`), so the extended checker relates the instrumented graph to `tx` and to
+`unsep tx unproved` without any hypothesis on the lexer beyond `hyps`. -/
+
+/-- shape table of `trap tx unproved`: `tx`'s, then per guard `Sequence` (T), `And` (N), `OrderedChoice` (T), `ω` -/
+def trapSh : ShTab := fun a =>
+  if a < tx.size then txoSh a else
+    match (a - tx.size) % 4 with
+    | 0 => [.T]
+    | 1 => [.N]
+    | 2 => [.T]
+    | _ => []
+def trapSide : Side := ⟨trap tx unproved, trapSh⟩
+
+def sepOf (g : Graph) (i : Nat) : List Nat :=
+  match g.get i with
+  | some nd => nd.sep.toList
+  | none => []
+
+/-- identity on the nodes of `tx`; each guarded separator is related to the plain separator -/
+def trapRel : Rel := fun a =>
+  if a < tx.size then [a]
+  else if (a - tx.size) % 4 = 0 then
+    (match unproved[(a - tx.size) / 4]? with
+     | some i => sepOf tx i
+     | none => [])
+  else []
+
+/-- kernel evaluation on the generated graph: the instrumented graph is well formed, its repetitions
+are guarded, and it is related by the extended checker to `tx` (no exceptional pair) and to
+`unsep tx unproved` (exceptional pairs: the guarded repetitions, for which `NoTrailingSep` is a theorem) -/
+theorem C24_check_trap :
+    wfSh trapSide.g hyps trapSide.sh = true ∧ (unproved.all fun i => trapOk trapSide i) = true ∧
+    checkX trapSide txSide hyps 0 trapRel [] [] = true ∧
+    checkX trapSide txoSide hyps 0 trapRel unprovedPairs [] = true := by
+  refine ⟨?_, ?_, ?_, ?_⟩ <;> decide +kernel
+
+/-- the actual run of `tx` on this input meets no trailing separator at the nodes of `unproved`:
+the instrumented graph terminates -/
+def CleanRun (L : Lex) : Prop :=
+  ∃ n, parse (trap tx unproved) L n (trap tx unproved).top false 0 ≠ .fuel
+
+theorem same_result {g₁ g₂ : Graph} {L : Lex} {r : Res} (hr : r ≠ .fuel)
+    (h1 : ∃ m, parse g₁ L m g₁.top false 0 = r) (h2 : ∃ m, parse g₂ L m g₂.top false 0 = r) :
+    (accepts g₁ L ↔ accepts g₂ L) ∧ (rejects g₁ L ↔ rejects g₂ L) := by
+  have key : ∀ (g : Graph), (∃ m, parse g L m g.top false 0 = r) →
+      (accepts g L ↔ ∃ v p, r = .ok v p) ∧ (rejects g L ↔ r = .fail) := by
+    intro g ⟨m, hm⟩
+    constructor
+    · constructor
+      · rintro ⟨n, v, p, h⟩
+        have := parse_det g L (n := n) (m := m) (a := g.top) (c := false) (p := 0) (by rw [h]; simp) (by rw [hm]; exact hr)
+        rw [h, hm] at this
+        exact ⟨v, p, this.symm⟩
+      · rintro ⟨v, p, h⟩
+        exact ⟨m, v, p, by rw [hm, h]⟩
+    · constructor
+      · rintro ⟨n, h⟩
+        have := parse_det g L (n := n) (m := m) (a := g.top) (c := false) (p := 0) (by rw [h]; simp) (by rw [hm]; exact hr)
+        rw [h, hm] at this
+        exact this.symm
+      · intro h
+        exact ⟨m, by rw [hm, h]⟩
+  have k1 := key g₁ h1
+  have k2 := key g₂ h2
+  exact ⟨k1.1.trans k2.1.symm, k1.2.trans k2.2.symm⟩
+
+/-- **C24 for `textx.tx` itself (partial, run-level hypothesis).**  For every lexer satisfying `hyps`
+such that the actual run of the `textx.tx` parser meets no trailing RREL separator (`CleanRun L`:
+the instrumented graph terminates — only positions the parser really visits count), the grammar
+compiler's parser (`lang.py`) and the parser compiled from `textx.tx` accept the same inputs and
+reject the same inputs.
+
+Missing for `C24_agree_tx_statement`: the inputs on which the run does meet a trailing separator
+(`A: b=[B|n|a.];`); both parsers reject those (correspondence on every generated text), but the proof
+of that is a follow-set argument about the whole grammar. -/
+theorem C24_agree_tx_run_partial (L : Lex) (hL : LexOk hyps L) (hrun : CleanRun L) :
+    (accepts lang L ↔ accepts tx L) ∧ (rejects lang L ↔ rejects tx L) := by
+  obtain ⟨n, hne⟩ := hrun
+  have hs : trapSide.Ok hyps L := ⟨C24_check_trap.1, hL⟩
+  have hT : ∀ ab, ab ∈ unprovedPairs → NoTrailingSep trapSide.g ab.1 L := by
+    intro ab hab
+    simp only [unprovedPairs, List.mem_map] at hab
+    obtain ⟨i, hi, rfl⟩ := hab
+    exact trap_notrail hs (List.all_eq_true.mp C24_check_trap.2.1 i hi)
+  have t1 := simX_sound C24_check_trap.1 C24_check_tx.1 C24_check_trap.2.2.1 hL (fun _ h => by simp at h)
+    (fun _ h => by simp at h) (checkX_base C24_check_trap.2.2.1).2.1 n false 0 hne
+  have t2 := simX_sound C24_check_trap.1 C24_check.2.1 C24_check_trap.2.2.2 hL hT
+    (fun _ h => by simp at h) (checkX_base C24_check_trap.2.2.2).2.1 n false 0 hne
+  obtain ⟨m1, hm1⟩ := t1
+  obtain ⟨m2, hm2⟩ := t2
+  have h12 := same_result (g₁ := tx) (g₂ := unsep tx unproved) hne ⟨m1, hm1 m1 (Nat.le_refl _)⟩
+    ⟨m2, hm2 m2 (Nat.le_refl _)⟩
+  have h0 := C24_agree_partial L hL
+  exact ⟨h0.1.trans h12.1.symm, h0.2.trans h12.2.symm⟩
+
+
+/-- none of the generated graphs is malformed: `Rec.parse` never yields `.bad` on them — every run ends in
+acceptance, rejection or `.fuel` (kernel evaluation of `noBadB`, then `parse_ne_bad` for all lexers,
+nodes, positions and fuel) -/
+theorem C24_never_bad (L : Lex) (n a : Nat) (c : Bool) (p : Nat) :
+    (a < lang.size → parse lang L n a c p ≠ .bad) ∧ (a < tx.size → parse tx L n a c p ≠ .bad) ∧
+    (a < (unsep tx unproved).size → parse (unsep tx unproved) L n a c p ≠ .bad) ∧
+    (a < (trap tx unproved).size → parse (trap tx unproved) L n a c p ≠ .bad) :=
+  ⟨parse_ne_bad (by decide +kernel) n a c p, parse_ne_bad (by decide +kernel) n a c p,
+   parse_ne_bad (by decide +kernel) n a c p, parse_ne_bad (by decide +kernel) n a c p⟩
+
 /-! ### why the RREL separator repetitions are left to correspondence: the two formulations differ -/
 
 /-- `x+[s] s` as a parser model: 0 = Sequence[1, 3], 1 = OneOrMore(2, sep=3), 2 = 'x', 3 = 's' -/
@@ -121,6 +355,71 @@ theorem C24_sep_forms_differ : accepts sepGraph sepLex ∧ rejects (unsepNode se
     ¬ accepts (unsepNode sepGraph 1) sepLex := by
   have hr : rejects (unsepNode sepGraph 1) sepLex := ⟨10, by decide⟩
   exact ⟨⟨10, .T, 2, by decide⟩, hr, fun ha => C24_not_both _ _ ⟨ha, hr⟩⟩
+
+
+/-- the hypothesis `NoTrailingSep` of `C24_agree_tx_partial` cannot be dropped from the checker rule: the
+lexer of `C24_sep_forms_differ` violates it, and with it `x+[s] s` and `(x s)* x s` are related by `checkX` -/
+theorem C24_notrail_needed : ¬ NoTrailingSep sepGraph 1 sepLex ∧
+    checkX ⟨sepGraph, fun _ => [.T]⟩ ⟨unsepNode sepGraph 1, fun a => if a = 4 then [.E, .T] else [.T]⟩ ⟨[], []⟩ 0
+      (idRel 4) [(1, 1)] [] = true :=
+  ⟨C24_notrail_scan _ _ _ 10 (by decide), by decide⟩
+
+/-! ### non-vacuity: real grammar texts with their real token tables (`Gen/Grammars.lean`) -/
+
+/-- lexer of the text `A: b=[B|n|a.b,^c*]; // x⏎` (token table computed with Python's `re`) -/
+def exOkLex : Lex := Lex.ofTable exOkInput exOkTable
+/-- lexer of the text `A:b=[B|n|a.];` -/
+def exTrailLex : Lex := Lex.ofTable exTrailInput exTrailTable
+
+/-- all hypotheses of `C24_agree_tx_partial` hold for a real grammar text with RREL separator repetitions,
+whitespace and a comment, and both graphs accept it (`lang` by kernel evaluation, `tx` by the theorem) -/
+theorem C24_accepts_example : LexOk hyps exOkLex ∧ (∀ i, i ∈ unproved → NoTrailingSep tx i exOkLex) ∧
+    accepts lang exOkLex ∧ accepts tx exOkLex := by
+  have hL : LexOk hyps exOkLex := C24_lexok_table _ _ _ (by decide +kernel)
+  have hT : ∀ i, i ∈ unproved → NoTrailingSep tx i exOkLex := by
+    have hall : (unproved.all fun i => noTrailEndsB tx i exOkLex 60 (tableEnds exOkTable (sepTok tx i))) = true := by
+      decide +kernel
+    intro i hi
+    exact C24_notrail_table _ _ _ _ 60 (List.all_eq_true.mp hall i hi)
+  have ha : accepts lang exOkLex := ⟨400, .T, exOkInput.size, by decide +kernel⟩
+  exact ⟨hL, hT, ha, (C24_agree_tx_partial _ hL hT).1.mp ha⟩
+
+/-- a text with a trailing RREL separator: the lexer hypotheses hold, `NoTrailingSep` fails at the
+`parts+=RRELPathPart['.']` repetition (so `C24_agree_tx_partial` does not speak about it), and `lang`,
+`tx` and `unsep tx unproved` all reject it (kernel evaluation) -/
+theorem C24_trailing_example : LexOk hyps exTrailLex ∧ (∃ i, i ∈ unproved ∧ ¬ NoTrailingSep tx i exTrailLex) ∧
+    rejects lang exTrailLex ∧ rejects tx exTrailLex ∧ rejects (unsep tx unproved) exTrailLex := by
+  refine ⟨C24_lexok_table _ _ _ (by decide +kernel), ?_, ⟨400, by decide +kernel⟩, ⟨400, by decide +kernel⟩,
+    ⟨400, by decide +kernel⟩⟩
+  have hex : (unproved.any fun i => !noTrailScanB tx i exTrailLex 100) = true := by decide +kernel
+  obtain ⟨i, hi, hb⟩ := List.any_eq_true.mp hex
+  exact ⟨i, hi, C24_notrail_scan _ _ _ 100 (by simpa using hb)⟩
+
+
+/-- lexer of the text `A: 'a.';` -/
+def exStrLex : Lex := Lex.ofTable exStrInput exStrTable
+
+/-- the run-level hypothesis holds for the real text of `C24_accepts_example` -/
+theorem C24_cleanrun_example : LexOk hyps exOkLex ∧ CleanRun exOkLex :=
+  ⟨C24_accepts_example.1, 400, by decide +kernel⟩
+
+/-- `A: 'a.';` — inside the string, `a` `.` is followed by a quote: the all-positions hypothesis
+`NoTrailingSep` fails at a position the RREL rules never visit, the run-level hypothesis holds, and
+`C24_agree_tx_run_partial` applies (both graphs accept) -/
+theorem C24_unvisited_example : LexOk hyps exStrLex ∧ (∃ i, i ∈ unproved ∧ ¬ NoTrailingSep tx i exStrLex) ∧
+    CleanRun exStrLex ∧ accepts lang exStrLex ∧ accepts tx exStrLex := by
+  have hL : LexOk hyps exStrLex := C24_lexok_table _ _ _ (by decide +kernel)
+  have hrun : CleanRun exStrLex := ⟨400, by decide +kernel⟩
+  have ha : accepts lang exStrLex := ⟨400, .T, exStrInput.size, by decide +kernel⟩
+  refine ⟨hL, ?_, hrun, ha, (C24_agree_tx_run_partial _ hL hrun).1.mp ha⟩
+  have hex : (unproved.any fun i => !noTrailScanB tx i exStrLex 100) = true := by decide +kernel
+  obtain ⟨i, hi, hb⟩ := List.any_eq_true.mp hex
+  exact ⟨i, hi, C24_notrail_scan _ _ _ 100 (by simpa using hb)⟩
+
+/-- on the text with a trailing RREL separator the instrumented run does not terminate within fuel 400
+(kernel evaluation; the guard diverges) -/
+theorem C24_trailing_trap_example :
+    parse (trap tx unproved) exTrailLex 400 (trap tx unproved).top false 0 = .fuel := by decide +kernel
 
 /-! ### non-vacuity -/
 
